@@ -49,8 +49,17 @@ var (
 	c03DuckErr  error
 )
 
+// c03Light is set for the -race part (see checks/C03.json "env").
+func c03Light() bool { return raceEnabledC03 }
+
 func c03Duck() (*sql.DB, error) {
-	c03DuckOnce.Do(func() { c03DuckDB, c03DuckErr = duck.Open() })
+	c03DuckOnce.Do(func() {
+		c03DuckDB, c03DuckErr = duck.Open()
+		if c03DuckErr == nil {
+			// tiny files: one thread is plenty and avoids a worker pool per core
+			_, c03DuckErr = c03DuckDB.Exec("SET threads=1")
+		}
+	})
 	return c03DuckDB, c03DuckErr
 }
 
@@ -309,6 +318,11 @@ func c03GenCase(t *rapid.T) (*c03Case, bool) {
 		NumericDictionary: rapid.Bool().Draw(t, "numdict"),
 		WriteStatistics:   rapid.Bool().Draw(t, "stats"),
 		Decimal:           rapid.IntRange(0, 3).Draw(t, "decimal") == 0,
+	}
+	if c03Light() {
+		// race-detector part: the zstd/gzip encoders allocate MBs per file, which the
+		// race runtime makes ~20x slower; the codec is irrelevant to interleavings
+		c.Cfg.Compression = "snappy"
 	}
 	// time bases for this history: epoch straddle, pre-1970, 1900, modern, far future
 	allBases := []int64{
